@@ -272,8 +272,10 @@ pub fn check_case(env: &Env, ctx: &Ctx, case: &Case, hash_seeds: &[u64]) -> (Opt
             2 => (vec![64], vec![5, 450]),
             _ => (vec![33, 200], vec![60_000, 0, 1]),
         };
-        // (cases with a parent process only) the scan of the process table ends early or late
+        // (cases with a parent process only) the scan of the process table ends early or late, in
+        // real time: no simulated clock in these runs, a timed wait in delta must see real durations
         let scan_delay = [0i64, 900, 0, 350][i % 4];
+        let rdl = if case.parent.is_some() { vec![] } else { rdl };
         let r = match run(env, &spec_for(case, *hs, rch, rdl, scan_delay), &ctx.dir.join("run"), false) {
             Ok(r) => r,
             Err(_) => continue,
